@@ -257,7 +257,7 @@ ALPHABET = {
                     "astype", "floordiv_s", "mod_s"],
     "reduce": ["sum", "prod", "amax", "amin", "all", "any"],
     "remap": ["stack", "concatenate", "roll", "transpose", "reshape", "expand_dims",
-              "squeeze", "broadcast_to", "basic_index"],
+              "squeeze", "broadcast_to", "basic_index", "pad"],
     "advanced": ["adv_index"],
     "einsum": ["einsum", "matmul", "dot"],
     "create": ["zeros", "ones", "full", "arange", "eye", "zeros_like", "ones_like"],
@@ -482,6 +482,15 @@ class _Gen:
             if rng.random() < 0.5:
                 new = (int(rng.integers(1, 3)),) + new
             return self.try_call({"op": op, "a": a, "shape": list(new)})
+        if op == "pad":
+            c = self.arrays(lambda a: a.ndim >= 1 and a.dtype.kind == "f")
+            if not c:
+                return False
+            a = pick(c)
+            nd = self.np_of(a).ndim
+            width = [[int(rng.integers(0, 3)), int(rng.integers(0, 3))] for _ in range(nd)]
+            return self.try_call({"op": "pad", "a": a, "width": width,
+                                  "cval": pick([0, 1.5, -2])})
         if op == "basic_index":
             c = self.arrays(lambda a: a.ndim >= 1)
             if not c:
